@@ -54,8 +54,8 @@ fn raw_data(rng: &mut Rng, s: &SizeInfo) -> Vec<u8> {
         0 => vec![0u8; s.n_data],
         1 => vec![0xFFu8; s.n_data],
         2 => {
-            // low-entropy: one repeated byte
-            let b = rng.byte();
+            // low-entropy: one repeated byte (the pad codeword among them)
+            let b = if rng.chance(1, 4) { 129 } else { rng.byte() };
             vec![b; s.n_data]
         }
         _ => rng.bytes(s.n_data),
@@ -289,12 +289,17 @@ fn weighted_cw_faults(rng: &mut Rng, s: &SizeInfo, weights: &[usize], faults: &m
     let pat = pick_pattern(rng);
     let vk = pick_valkind(rng);
     let mut positions = Vec::new();
+    // sometimes every error has the same value (equal error values are a corner of the value solver)
+    let same_mask = if vk == ValKind::Subst && rng.chance(1, 8) { Some(rng.nonzero_byte()) } else { None };
     for (b, w) in weights.iter().enumerate() {
         if *w == 0 {
             continue;
         }
         for p in pick_block_positions(rng, s, b, *w, region, pat) {
-            faults.push(value_fault(rng, vk, pattern_label(pat), p));
+            match same_mask {
+                Some(m) => faults.push(Fault::new(pattern_label(pat).unwrap_or("cw_subst"), Op::CwXor { pos: p as u32, mask: m })),
+                None => faults.push(value_fault(rng, vk, pattern_label(pat), p)),
+            }
             positions.push(p);
         }
     }
@@ -977,8 +982,15 @@ pub fn fabricate_stream(rng: &mut Rng) -> Vec<u8> {
         eci_bytes(rng, &mut out);
     }
     let n_tokens = rng.range(1, 6);
-    for _ in 0..n_tokens {
-        match rng.below(14) {
+    // string-path mode: charset switches interleaved with constructs that emit high bytes
+    let eci_heavy = rng.chance(1, 5);
+    for tok in 0..n_tokens {
+        let choice = if eci_heavy {
+            if tok % 2 == 0 { 11 } else { *rng.pick(&[2usize, 9, 0, 2, 9, 12]) }
+        } else {
+            rng.below(14)
+        };
+        match choice {
             0 => {
                 for _ in 0..rng.range(1, 5) {
                     out.push(rng.range(1, 128) as u8);
@@ -1275,10 +1287,16 @@ fn gen_c08(ctx: &Ctx, rng: &mut Rng, i: u64) -> Trace {
     }
     let s = &SIZES[pick_size(rng, i, false)];
     let producer = Producer::Raw { size: s.idx, data: raw_data(rng, s) };
-    // arbitrary matrix content, not only valid RS words
+    // arbitrary matrix content, not only valid RS words: random, or every module dark / light / striped
     if rng.chance(1, 3) {
+        let constant: Option<u8> = match rng.below(8) {
+            0 | 1 => Some(0xFF),
+            2 => Some(0x00),
+            3 => Some(*rng.pick(&[0xAAu8, 0x55, 0x0F, 0xF0, 0x80, 0x01])),
+            _ => None,
+        };
         for p in 0..s.n_total() {
-            faults.push(Fault::new("cw_replace", Op::CwSet { pos: p as u32, val: rng.byte() }));
+            faults.push(Fault::new("cw_replace", Op::CwSet { pos: p as u32, val: constant.unwrap_or_else(|| rng.byte()) }));
         }
     }
     match scenario {
